@@ -54,7 +54,7 @@ func (h *regHub) services() {
 
 func regJobConfig(id string, v int) *jobs.JobConfiguration {
 	c := regJobConfigBase(id, v)
-	if v == 2 { // the second definition carries error handlers
+	if v >= 2 { // replacements carry error handlers
 		c.Triggers[0].ErrorHandlers = jobs.ErrorHandlers{&jobs.ErrorHandler{Type: "rerun", MaxRetries: 2, RetryDelay: 5},
 			&jobs.ErrorHandler{Type: "log", MaxItems: 3}}
 	}
